@@ -15,6 +15,7 @@ import (
 
 	"sync/atomic"
 
+	"github.com/douban/gobeansdb/cmem"
 	"github.com/douban/gobeansdb/config"
 	"github.com/douban/gobeansdb/loghub"
 	"github.com/douban/gobeansdb/utils"
@@ -134,6 +135,12 @@ func (c *ServerConn) ServeOnce(storageClient StorageClient, stats *Stats) (err e
 			err = nil
 		}
 	} else if overdue(req.ReceiveTime, t) {
+		// the command is dropped without being processed: give back what Read
+		// allocated and counted for it (value buffer, SetData size and count)
+		if req.Item != nil {
+			cmem.DBRL.SetData.SubSizeAndCount(req.Item.CArray.Cap)
+			req.Item.CArray.Free()
+		}
 		req.SetStat("recv_timeout")
 		resp = new(Response)
 		resp.Status = "RECV_TIMEOUT"
